@@ -17,7 +17,8 @@ EXTENDS Integers, Sequences, FiniteSets, TLC
 CONSTANT Deviations   \* subset of {"F06c", "F06d", "F08a", "P2stale"}
 
 Algs == {"parafac", "nn_parafac", "nn_parafac_hals", "constrained_parafac", "tucker", "nn_tucker",
-         "nn_tucker_hals", "parafac2", "tr_als", "rand_parafac", "cmtf"}
+         "nn_tucker_hals", "parafac2", "tr_als", "rand_parafac", "cmtf",
+         "robust_pca"}          \* extension X06: not named by property C06, same contract (absolute error / ||X||)
 
 None == "none"
 NoOwner == -1
@@ -30,7 +31,7 @@ NoOwner == -1
 Reports(c) ==
     CASE c.alg = "parafac" -> c.tol_on \/ c.ret
       [] c.alg \in {"nn_parafac", "nn_parafac_hals", "parafac2"} -> c.tol_on
-      [] c.alg \in {"tucker", "nn_tucker", "nn_tucker_hals", "constrained_parafac", "cmtf"} -> TRUE
+      [] c.alg \in {"tucker", "nn_tucker", "nn_tucker_hals", "constrained_parafac", "cmtf", "robust_pca"} -> TRUE
       [] c.alg = "tr_als" -> c.tol_on \/ c.callback
       [] c.alg = "rand_parafac" -> c.tol_on \/ c.stagn
 
@@ -38,11 +39,11 @@ Reports(c) ==
 ExposesList(c) == c.alg # "tr_als"
 
 \* smallest 0-based iteration index at which the convergence test may end the run
-MinConv(c) == IF c.alg \in {"tucker", "nn_tucker", "nn_tucker_hals", "rand_parafac"} THEN 2 ELSE 1
+MinConv(c) == IF c.alg \in {"tucker", "nn_tucker", "nn_tucker_hals", "rand_parafac", "robust_pca"} THEN 2 ELSE 1
 
 \* is a convergence test active at all?
 CanStop(c) ==
-    CASE c.alg = "cmtf" -> TRUE                         \* `<= tol` also fires with tol = 0
+    CASE c.alg \in {"cmtf", "robust_pca"} -> TRUE         \* `<= tol` also fires with tol = 0
       [] c.alg = "rand_parafac" -> c.tol_on \/ c.stagn
       [] OTHER -> c.tol_on
 
